@@ -85,6 +85,55 @@ CORE = {
             "cap": 400000,
         },
     },
+    "C14": {
+        "checked": ["cbf", "dupcb", "ret", "reqs", "out", "rdata", "panic", "dupout"],
+        "assumptions": [
+            "distinct callbacks are distinct function literals (the stack identifies 'the same callback' by code pointer)",
+            "replies and results carry a msgCounterReference; message counters of different connections are kept apart by the harness so that a reference identifies one request",
+            "callbacks run in goroutines of the stack; 'exactly once / never' is read at quiescence (goroutine count back at the baseline), never after a fixed sleep",
+            "a result callback is registered at most once per feature in generated histories",
+            "registrations concurrent with arrivals are covered by the free-running stress of the C17 check, not here",
+        ],
+        "quick": {
+            "mc": [{"acts": ["lreq", "addcb", "addrcb", "cbrecv"], "maxlen": 5, "prefix": "PrefixP1", "maxreq": 2}],
+            "gen": [{"acts": ["lreq", "addcb", "addrcb", "cbrecv"], "maxlen": 5, "prefix": "PrefixP1", "maxreq": 2},
+                    {"acts": ["lreq", "addcb", "cbrecv"], "maxlen": 4, "prefix": "PrefixP1P2", "maxreq": 2}],
+            "sim": [{"acts": DISC + ["lreq", "addcb", "addrcb", "cbrecv", "entadd", "setdata"], "maxlen": 25, "num": 300, "maxreq": 3}],
+            "cap": 40000,
+        },
+        "thorough": {
+            "mc": [{"acts": ["lreq", "addcb", "addrcb", "cbrecv"], "maxlen": 6, "prefix": "PrefixP1P2", "maxreq": 2}],
+            "gen": [{"acts": ["lreq", "addcb", "addrcb", "cbrecv"], "maxlen": 6, "prefix": "PrefixP1", "maxreq": 2},
+                    {"acts": ["lreq", "addcb", "addrcb", "cbrecv"], "maxlen": 5, "prefix": "PrefixP1P2", "maxreq": 2}],
+            "sim": [{"acts": DISC + ["lreq", "addcb", "addrcb", "cbrecv", "entadd", "setdata", "recv"], "maxlen": 40, "num": 3000, "maxreq": 3}],
+            "cap": 400000,
+        },
+    },
+    "C20": {
+        "checked": ["ucs", "hasuc", "out", "ret", "panic", "dupout"],
+        "assumptions": [
+            "operations are issued one at a time here; concurrent read-modify-write cycles are decided by the schedule check (window UseCase.beforeStore)",
+            "2 entities x 2 actors x 2 names x 2 versions x availability x 2 scenario lists",
+            "every change of the registry is a data change of the node management feature and is notified to its subscribers (C08); the notification content is compared too",
+        ],
+        "quick": {
+            "mc": [{"acts": ["adduc", "remuc", "setav", "remall", "readuc"], "maxlen": 4, "prefix": "PrefixP1"},
+                   {"acts": ["adduc", "remuc", "setav", "remall"], "rich": ["adduc"], "tiny": ["adduc"], "maxlen": 5, "prefix": "PrefixP1"}],
+            "gen": [{"acts": ["adduc", "remuc", "setav", "remall", "readuc"], "maxlen": 3, "prefix": "PrefixP1"},
+                    {"acts": ["adduc", "remuc", "setav", "remall", "readuc"], "rich": ["adduc"], "tiny": ["adduc"], "maxlen": 4, "prefix": "PrefixP1"},
+                    {"acts": ["adduc", "remuc", "setav", "remall"], "tiny": ["adduc"], "maxlen": 4, "prefix": "PrefixP1", "view": None}],
+            "sim": [{"acts": DISC + ["adduc", "remuc", "setav", "remall", "readuc", "sub", "unsub"], "rich": ["adduc"], "maxlen": 30, "num": 200}],
+            "cap": 40000,
+        },
+        "thorough": {
+            "mc": [{"acts": ["adduc", "remuc", "setav", "remall", "readuc"], "rich": ["adduc"], "maxlen": 4, "prefix": "PrefixP1"}],
+            "gen": [{"acts": ["adduc", "remuc", "setav", "remall", "readuc"], "maxlen": 4, "prefix": "PrefixP1"},
+                    {"acts": ["adduc", "remuc", "setav", "remall", "readuc"], "rich": ["adduc"], "tiny": ["adduc"], "maxlen": 5, "prefix": "PrefixP1"},
+                    {"acts": ["adduc", "remuc", "setav", "remall"], "tiny": ["adduc"], "maxlen": 5, "prefix": "PrefixP1", "view": None}],
+            "sim": [{"acts": DISC + ["adduc", "remuc", "setav", "remall", "readuc", "sub", "unsub"], "rich": ["adduc"], "maxlen": 50, "num": 3000}],
+            "cap": 400000,
+        },
+    },
     "C08": {
         "checked": ["subs", "out", "ev", "ret", "panic", "dupout", "dupev", "ids"],
         "assumptions": [
